@@ -415,3 +415,37 @@ def rule_subq1d(P) -> RuleResult:
     if len(res.findings) == n0:
         res.ok({'node': ci.fq, 'membership_in': 'row[0] of every result row', 'empty': 'NULL', 'cached': 'on the node instance'})
     return res
+
+
+# ----------------------------------------------------------------------
+# R-PARSEFRESH (C06, C19): every parse gives the caller its own tree
+
+def rule_parsefresh(P) -> RuleResult:
+    """The syntax tree is mutable and its consumers write into it (the shell stores the default CLOSE date of `.run` in the
+    FROM clause); parse() must therefore build a new tree on every call: no memo decorator and no module-level cache on
+    parse(), the semantic actions or the AST node constructors, and no write to state that outlives the call."""
+    res = RuleResult('R-PARSEFRESH')
+    c = _census(P)
+    mods = ('beanquery.parser', 'beanquery.parser.ast')
+    n = 0
+    for m in mods:
+        mod = P.modules.get(m)
+        if mod is None:
+            raise AnalysisError(f'anchor vanished: module {m}')
+        for fi in mod.functions.values():
+            n += 1
+            for d in fi.node.decorator_list:
+                e = d.func if isinstance(d, ast.Call) else d
+                if fi.module.dotted(e) in effects.MEMO_DECORATORS:
+                    res.fail(fi.fq, 'parsefresh:memo', f'`@{unparse(d)}` on {fi.qualname}: the same syntax tree object is handed to every caller '
+                             f'that parses the same text, and consumers write into it (the shell sets the default CLOSE date of .run NAME on '
+                             f'the FROM clause): a later parse of the identical text is executed with that change', loc(fi))
+    for w in c.writes:
+        if w.func.module.name in mods and w.lifetime in ('IMPORT', 'CONNECTION') and w.func not in c.import_only:
+            res.fail(w.func.fq, f'parsefresh:{w.kind}', f'{w.func.qualname} writes `{w.receiver}` ({w.why}) while parsing: state kept between '
+                     f'two parses', f'{w.func.module.path}:{getattr(w.node, "lineno", 0)}')
+    if n < 15:
+        raise AnalysisError(f'only {n} functions found in the parser front end')
+    if not res.findings:
+        res.ok({'modules': list(mods), 'functions_examined': n, 'memoised': 0, 'writes_outliving_a_parse': 0})
+    return res
